@@ -187,4 +187,64 @@ PadModel(pk, n) ==
 SameFrames(pk, sd1, q, sd2) ==
   LET a == Parse(pk, sd1)  c == Parse(q, sd2) IN
   /\ a.ok /\ c.ok /\ a.sizes = c.sizes /\ a.toc \div 4 = c.toc \div 4 /\ pk.fids = q.fids
+
+-----------------------------------------------------------------------------
+(* Growth: the internal entry points with all their parameters.             *)
+(*  - opus_repacketizer_out_range_impl(rp, b, e, data, maxlen, sd, pad,      *)
+(*    extensions): self-delimited output (what multistream uses) and padding *)
+(*    up to exactly maxlen                                                  *)
+(*  - opus_packet_pad_impl(data, len, new_len, pad, extensions): padding     *)
+(*    that ADDS extensions (the encoder's DRED path)                         *)
+(* An extension list is a sequence of [id, frame, data].                     *)
+
+\* EncWithExts: frames `sizes` carrying the extensions `list`; total = 0 asks for the minimal
+\* encoding, total > 0 for exactly that many bytes.  [ok |-> FALSE] when it cannot be done.
+EncWithExts(cfg, sizes, sd, list, total) ==
+  LET n     == Len(sizes)
+      canon == Canon(cfg, sizes, sd)
+      base3 == Enc(cfg, sizes, sd, 0, TRUE).len IN
+  IF list = <<>> THEN
+     IF total = 0 \/ total = canon.len THEN [ok |-> TRUE, hdr |-> canon.hdr, len |-> canon.len, padb |-> <<>>]
+     ELSE IF total < base3 THEN [ok |-> FALSE]
+     ELSE LET c == Enc(cfg, sizes, sd, total - base3, TRUE) IN
+          [ok |-> TRUE, hdr |-> c.hdr, len |-> c.len, padb |-> Rep(c.pad, 0)]
+  ELSE
+     LET xb == E!GenCanon(list, n)
+         A  == IF total = 0 THEN AmountFor(Len(xb)) ELSE total - base3 IN
+     IF A < 1 THEN [ok |-> FALSE]
+     ELSE LET c == Enc(cfg, sizes, sd, A, TRUE) IN
+          IF c.pad < Len(xb) THEN [ok |-> FALSE]
+          ELSE [ok |-> TRUE, hdr |-> c.hdr, len |-> c.len, padb |-> Rep(c.pad - Len(xb), 1) \o xb]
+
+\* size bounds of any sensible encoding of frames + extensions (generator contract: the generator
+\* may use repeats/short forms, never more than the naive form)
+ExtUpper(cfg, sizes, sd, list) ==
+  LET x == NaiveExtBytes(list) IN Enc(cfg, sizes, sd, 0, TRUE).len + x + x \div 254 + 2
+ExtLower(cfg, sizes, sd, list) == Enc(cfg, sizes, sd, 0, TRUE).len + 2 + SumData(list)
+
+\* out_range_impl: selection [b,e), self-delimited or not, padded to maxlen or not, plus added extensions
+OutModelX(rp, b, e, sd, total, added) ==
+  LET sel == Sel(rp, b, e)
+      o   == EncWithExts(rp.cfg, SizesOf(sel), sd, Carried(rp, b, e) \o added, total) IN
+  IF ~o.ok THEN o
+  ELSE [ok |-> TRUE, hdr |-> o.hdr, len |-> o.len, fill |-> 0, fids |-> FidsOf(sel), padb |-> o.padb]
+
+\* the extensions a wire packet carries (malformed padding carries nothing)
+PkExts(pk, cnt) == LET x == E!ParseRaw(pk.padb, cnt) IN IF x.ok THEN E!XContentsOf(pk.padb, x.exts) ELSE <<>>
+
+\* opus_packet_pad_impl with new_len > len
+PadWithExt(pk, n, pad, list) ==
+  LET r == Parse(pk, FALSE) IN
+  IF ~r.ok \/ n <= pk.len \/ ~E!GenArgsLegal(list, r.count) THEN [ok |-> FALSE]
+  ELSE LET o == EncWithExts(r.toc \div 4, r.sizes, FALSE, PkExts(pk, r.count) \o list, IF pad THEN n ELSE 0) IN
+       IF ~o.ok \/ o.len > n THEN [ok |-> FALSE]
+       ELSE [ok |-> TRUE, hdr |-> o.hdr, len |-> o.len, fill |-> 0, fids |-> pk.fids, padb |-> o.padb]
+
+\* per frame k: what an output may hold when `own` were carried and `added` were passed in
+\* (each list keeps its order; which of the two comes first within a frame is left open)
+FrameExtsOK(got, own, added, k) ==
+  LET g == Strip(E!ExtsOfFrame(got, k))
+      a == Strip(E!ExtsOfFrame(own, k))
+      c == Strip(E!ExtsOfFrame(added, k)) IN
+  g = a \o c \/ g = c \o a
 =============================================================================
